@@ -82,21 +82,28 @@ def run_path(path, value, lang):
     form = path["form"]
     inj = path["inject"]
     persist = set(path["persist"])
-    spec_dict = {"version": 1.0, "input": ["a"], "vars": [{"v": ref(lang, form, "a")}, {"d": {"keep": 1}}, {"w": "old value"}],
+    spec_dict = {"version": 1.0, "input": ["a", {"b": {"dflt": ["marker"]}}], "vars": [{"v": ref(lang, form, "a")}, {"d": {"keep": 1}}, {"w": "old value"}],
                  "tasks": {
                      "t0": {"action": "core.noop"},        # a terminal task that sees the initial context only
                      "t1": {"action": "core.echo", "input": {"p": ref(lang, form, "v")},
                             "next": [{"publish": [{"q": ("<% result() %>" if lang == "yaql" else "{{ result() }}")},
                                                   {"d": {"more": 2}}, {"e": {"first": 1}},
                                                   {"w": ("<% result() %>" if lang == "yaql" else "{{ result() }}")}],
-                                      "do": ["t2", "t3"]}]},
+                                      "do": ["t2", "t3"]},
+                                     # a sibling transition of the same completion: it is evaluated against the
+                                     # context as it was before the first transition published anything
+                                     {"publish": [{"d_seen": ref(lang, form, "d")}], "do": ["t5"]}]},
+                     "t5": {"action": "core.noop"},
                      "t2": {"action": "core.echo", "input": {"p": ref(lang, form, "q"), "pw": ref(lang, form, "w")},
-                            "next": [{"publish": [{"d": {"third": 3}}, {"e": {"second": 2}}], "do": ["t4"]}]},
+                            "next": [{"publish": [{"d": {"third": 3}}, {"e": {"second": 2}}], "do": ["t4"]},
+                                     # staged before t4 and without t2's publishes (C19: the query is pure)
+                                     {"do": ["t2b"]}]},
+                     "t2b": {"action": "core.echo", "input": {"p": ref(lang, form, "e")}},
                      "t3": {"action": "core.echo", "input": {"p": ref(lang, form, "d")}, "next": [{"do": ["t4"]}]},
                      "t4": {"join": "all", "action": "core.echo", "input": {"p": ref(lang, form, "q")}}},
                  "output": [{"o": ref(lang, form, "q")}, {"od": ref(lang, form, "d")}, {"ow": ref(lang, form, "w")}]}
     spec = native_specs.WorkflowSpec(copy.deepcopy(spec_dict))
-    c = conducting.WorkflowConductor(spec, inputs={"a": copy.deepcopy(value)})
+    c = conducting.WorkflowConductor(spec, inputs={"a": copy.deepcopy(value), "b": copy.deepcopy(value)})
     stages, hidden, pure, ctx0s = [], [], [], []
     npers = [0]
 
@@ -132,15 +139,24 @@ def run_path(path, value, lang):
     stages.append(["input", tag(c.get_workflow_input().get("a"))])
     ic = c.get_workflow_initial_context()
     stages.append(["ctx_a", tag(ic.get("a"))])
+    stages.append(["input_b_given_although_defaulted", tag(c.get_workflow_input().get("b"))])
+    stages.append(["ctx_b", tag(ic.get("b"))])
     stages.append(["vars_v", tag(ic.get("v"))])
     scan("initial_ctx", ic)
     P(0)
-    res_of = {"t0": "r0", "t1": value if inj == "result" else "r1", "t2": "r2", "t3": "r3", "t4": "r4"}
+    res_of = {"t0": "r0", "t1": value if inj == "result" else "r1", "t2": "r2", "t3": "r3", "t4": "r4", "t5": "r5", "t2b": "r2b"}
     expect = value
     for rnd in range(4):
         tasks = c.get_next_tasks()
         if not tasks:
             break
+        # asking again (twice) gives the same answer and leaves the persisted form alone
+        view = lambda ts: tag([[t["id"], t["route"], {k: v for k, v in t["ctx"].items() if not k.startswith("__")},
+                                [a.get("input") for a in t["actions"]]] for t in ts])
+        dg = lambda: hashlib.sha1(json.dumps(c.serialize()["state"], sort_keys=True, default=str).encode()).hexdigest()
+        d1 = dg()
+        again = [view(c.get_next_tasks()), view(c.get_next_tasks())]
+        pure.append(["query_idem", "same" if again == [view(tasks)] * 2 and dg() == d1 else "changed"])
         for t in tasks:
             scan("offer_ctx_" + t["id"], {k: v for k, v in t["ctx"].items() if k not in ("__state", "__current_task", "__current_item")})
             if t["id"] == "t1":
@@ -151,6 +167,8 @@ def run_path(path, value, lang):
                 stages.append(["t2_input_overwritten_var", tag(t["actions"][0]["input"]["pw"])])
             if t["id"] == "t3":
                 pure.append(["t3_sees_d", tag(t["actions"][0]["input"]["p"])])
+            if t["id"] == "t5":
+                pure.append(["sibling_sees_d", tag(t["ctx"].get("d_seen", "<missing>"))])
         P(1 + rnd)
         for t in tasks:
             c.update_task_state(t["id"], t["route"], events.ActionExecutionEvent(statuses.RUNNING))
